@@ -201,3 +201,38 @@ def check_cmp_events(ctx, cases, res, keyfn=None, known=None):
     if ctx.extra.get("cases_not_run", 0) or ctx.extra.get("cases_short_of_events", 0):
         raise Inconclusive("some cases did not run to completion: not_run=%s short=%s" % (
             ctx.extra.get("cases_not_run", 0), ctx.extra.get("cases_short_of_events", 0)))
+
+
+def build_negative(ctx, name, cases, prelude="", header=HEADER, timeout=3600, raw_files=None):
+    """Compile every case as its OWN binary (its own rustc process), so that an error in one case
+    cannot hide another case; returns {case id: [error diags]} (missing id = it compiled).
+    `raw_files` maps case id -> complete source text (used for the repo's compile_fail corpus)."""
+    cdir = os.path.join(ctx.workdir, name)
+    pkg = re.sub(r"\W", "_", ("n_%s_%s_%s%s" % (ctx.pid, ctx.tier, name, common.repo_tag())).lower())
+    files = {}
+    ids = {}
+    for c in cases:
+        bn = "%s_%s" % (pkg, c.id)
+        ids[bn] = c.id
+        if raw_files and c.id in raw_files:
+            files["src/bin/%s.rs" % bn] = raw_files[c.id]
+        else:
+            files["src/bin/%s.rs" % bn] = header + prelude + "\n" + c.items + "\nfn main() {}\n"
+    common.make_crate(cdir, pkg, files)
+    rc, diags, arts, err = common.cargo_json(cdir, ("check", "--bins", "--keep-going"), timeout=timeout)
+    out = {}
+    for d in diags:
+        if d.get("level") != "error":
+            continue
+        m = d.get("message", "")
+        if m.startswith("aborting due to") or m.startswith("could not compile"):
+            continue
+        cid = ids.get(d.get("_target"))
+        if cid is None:
+            continue
+        out.setdefault(cid, []).append(d)
+    if rc == 0 and out:
+        raise Inconclusive("cargo reported success although errors were emitted")
+    if rc != 0 and not out:
+        raise Inconclusive("negative build of %s failed without attributable errors: %s" % (name, err[-1500:]))
+    return out
